@@ -86,14 +86,14 @@ func verifHex8(id uint32) string {
 // once per hop: unwrapping hop by hop with each hop's own key yields the next hop's id and
 // finally the original task under the target's key.
 func H_c08_chain() {
-	d := 1 + nondet_choice("depth", verif_bound("chain-depth", verifChainMaxDepth, 5))
+	d := 1 + nondet_choice("depth", verif_bound("chain-depth", verifChainMaxDepth, 4))
 	ag := make([]*Agent, d+1)
 	ids := make([]uint32, d+1)
 	for k := 0; k <= d; k++ {
 		// top byte of every id arbitrary (incl. ids >= 0x80000000), low 24 bits fixed and distinct
 		ids[k] = uint32(nondet_u8("id-top"))<<24 | uint32(0x10203+k)
-		if verif_bound("chain-full-target-id", 0, 1) == 1 {
-			if k == d {
+		if verif_bound("chain-full-target-id-at-depth-1", 0, 1) == 1 {
+			if k == d && d == 1 {
 				ids[k] = nondet_u32("target-id")
 			}
 		}
